@@ -92,6 +92,8 @@ def _plan(draw, big):
         plan["np_ints"] = draw(st.sampled_from(["uint8", "int8", "uint8", None]))
     if cls == "frame" and draw(st.integers(0, 9)) == 0:
         plan["enum_names"] = True
+    if cls in ("frame", "geojson") and draw(st.integers(0, 5)) == 0:
+        plan["grouped"] = True            # the frame carries a group_by mark (it was, or is about to be, aggregated)
     if cls in ("frame", "geojson"):
         n = draw(gen.nrows(20 if big else 8))
         k = draw(st.integers(0, 10 if big else 6))
@@ -342,6 +344,9 @@ def check(plan, ctx):
             Col = enum.Enum("Col", [(f"M{i}", c["name"]) for i, c in enumerate(plan["frame"]["cols"])], type=str)
             data = type(data)({(Col(k) if any(k == c["name"] for c in plan["frame"]["cols"]) else k): v for k, v in dict.items(data)})
             ctx.cls("enum_member_column_names")
+        if plan.get("grouped") and len(dict.keys(data)):
+            data.group_by(list(dict.keys(data))[0])
+            ctx.cls("receiver_carries_a_group_by_mark")
         before = build.snap_frame(data)
         text = _render_all(data, {k: _np_int(v, how) for k, v in opts.items()}, cls)
         if build.snap_frame(data) != before:
